@@ -231,6 +231,68 @@ def extra_specs(kmode: str = "zero", tier: str = "quick"):
     return out
 
 
+def NOT_ANY(stop):
+    return ("star", ("grp", ("seq", (("not", stop), R("ANY")))))
+
+
+SKIP_SHAPES = (
+    ("b", NOT_ANY(S("b"))),
+    ("b|ab", NOT_ANY(("grp", ("alt", (S("b"), S("ab")))))),
+    ("bb", NOT_ANY(S("bb"))),                    # a stop string that overlaps itself
+    ("^b", NOT_ANY(("ci", "b"))),                 # case-insensitive stop
+    ("^ab", NOT_ANY(("ci", "ab"))),               # case-insensitive stop of two letters (mixed-case spellings)
+    ("rule", NOT_ANY(R("n"))),                    # the stop is a rule (n = { "a" })
+)
+
+
+def skip_specs(kmode: str = "zero", tier: str = "quick", trivs=None, mods=None, full: bool = False):
+    """The (!stop ~ ANY)* idiom, which the optimizer turns into a substring search, in the places where such a search can go wrong:
+    evaluated at several positions of one input (repetition, two calls of one rule), re-evaluated after backtracking, under every
+    rule modifier (implicit trivia is live inside normal and ! rules), with stops that are case-insensitive / overlap / are rules."""
+    out = []
+    T = S("b")
+    if full or tier == "thorough":
+        trivs, mods = trivs or ("none", "ws", "cm1"), mods or ("", "_", "@", "$", "!")
+    else:
+        trivs, mods = trivs or ("none", "ws"), mods or ("", "@", "!")
+    for tv in trivs:
+        starts = []
+        for label, X in SKIP_SHAPES:
+            w = ("w_" + str(SKIP_SHAPES.index((label, X))), "", X)       # a rule holding the shape, so that one expression object is called twice
+            W = R(w[0])
+            templates = (
+                X, ("seq", (X, T)), ("star", ("grp", ("seq", (X, T)))), ("seq", (X, T, X)), ("seq", (T, X)),
+                ("alt", (("seq", (X, T, X, S("!"))), ("seq", (X, T, X)))),               # the same positions again after backtracking
+                ("seq", (W, T, W)), ("star", ("grp", ("seq", (W, T)))), ("alt", (("seq", (W, S("!"))), ("seq", (S("a"), W)))),
+                ("seq", (("and", ("seq", (X, T))), R("ANY"), X)), ("seq", (("opt", ("grp", ("seq", (X, T, S("!"))))), X)),
+            )
+            for body in templates:
+                for m in mods:
+                    starts.append(((w,), (m, body)))
+        sigma = "abB" + TRIVIA_SIGMA[tv]
+        L = 4 if (tier == "thorough" or (kmode != "all" and tv == "none")) else 3
+        specs = []
+        for i in range(0, len(starts), 40):
+            rules = list(TRIVIA[tv] + HELPERS)
+            names = []
+            seen_extra = set()
+            for j, (extra, (mod, body)) in enumerate(starts[i:i + 40]):
+                for r in extra:
+                    if r[0] not in seen_extra:
+                        seen_extra.add(r[0])
+                        rules.append(r)
+                name = f"r{i + j}"
+                rules.append((name, mod, body))
+                names.append(name)
+            specs.append(Spec(rules, names, inputs(sigma, L), kmode, f"skip-shapes({tv})"))
+        out.extend(specs)
+    return out
+
+
+SKIP_RULE_TEXT = ("; plus skip shapes: (!stop ~ ANY)* with stop in {\"b\", (\"b\"|\"ab\"), \"bb\", ^\"b\", ^\"ab\", n} in eleven templates (alone, before a terminator, repeated, twice in one sequence, "
+                  "re-evaluated after backtracking, through a rule called twice, under & and ?), under the rule modifiers normal / @ / ! (C04 and thorough: all five), with trivia none / WHITESPACE (C04 and thorough: also a one-character COMMENT), "
+                  "inputs over {a,b,B}+trivia up to length 4 (3 with trivia or with every start position)")
+
 EXTRA_RULE_TEXT = ("; plus (c) counts: every bound {m} {m,} {,n} {m,n} with counts 0..3 (zero counts included) over \"a\", n and (\"ab\"|\"a\"), alone / before \"a\" / before EOI / in an abandoned alternative, normal and atomic, without and with implicit whitespace; "
                    "(d) newline: every expression with <= 2 nodes over {NEWLINE, \"a\", \"\\n\", ANY} on every string over {a, \\r, \\n} up to length 4, also with WHITESPACE = _{ NEWLINE | \" \" }")
 
